@@ -9,19 +9,18 @@ every `b ≤ 61`, `H = 2^62 - 4` for `b = 62`); they need not be normalised.
 `TorusNear X px Y py`: `|X/2^px − Y/2^py| ≤ 2^-px` on R/Z;  `TorusEq`: equality on R/Z.
 The model follows poulpy after the repairs docs/fixes/01–03 (gap region, rsh_assign, NTT120 fused cross radix).
 
+Cross-radix theorems: `NormL.CrossCtx bits ab rb rs 0 H a` = `bits ∈ {64,128}`, `1 ≤ rb ≤ 62`, `1 ≤ ab ≤ 62`,
+`0 ≤ H`, `H + 8 ≤ 2^(bits-2)`, every limb of `a` bounded by `H` (i64: `|limb| ≤ 2^62 − 8`).
+
 /- FULL STATEMENTS not (fully) proved; everything below is covered by correspondence + oracle:
-   `normalize_cross_value` (offset ≠ 0): for `res_base2k ≠ a_base2k` and an arbitrary offset,
-   `normalizeCrossCoef bits rb rs off ab a` is `TorusNear` `a·2^off` and exact with enough limbs.  Proved:
-   offset 0 for every pair of radices (`normalize_cross_value_offset0`, `normalize_value_offset0`,
-   `big_normalize128_value_offset0`) and the all-shifted-out case for every offset
-   (`normalize_cross_value_partial`).  The loop invariant (Lemmas/NormCross, NormCross2, NormCross3) is
-   offset independent; what is missing for offset ≠ 0 is the end-game arithmetic of the limb / bit
-   counters and the carry-propagation block of negative offsets.  0 disagreements / 0 oracle failures
-   over all radix pairs 1..62² and all offsets in the correspondence.
+   none for the value properties.  Remarks on the cross-radix theorems:
+   (1) [closed] termination of the fuelled inner loop: `normalize_cross_terminates` proves the routine
+       always returns, so the hypotheses `… = some out` are always satisfiable (`…_total` forms);
+   (2) [closed] exactness holds under the bit-granular condition `ab·a_size − off ≤ rb·rs`, as for equal radices.
 -/
 -/
 import Poulpy.Lemmas.NormFused
-import Poulpy.Lemmas.NormCross4
+import Poulpy.Lemmas.NormDispatch
 import Poulpy.Lemmas.NormCodec
 
 namespace C08
@@ -669,9 +668,231 @@ theorem big_normalize128_value_offset0 {ab rb rs : Nat} {H : Int} {a : List Int}
     rw [if_neg hr] at h
     exact normalize_cross_value_offset0 c h
 
+/-- **cross-radix `vec_znx_normalize` / `vec_znx_big_normalize`, EVERY offset** (`bits = 64`: VecZnx and
+the FFT64 accumulator, `bits = 128`: NTT120), any pair of radices `1..62`, any `a_size` / `res_size`,
+un-normalised input within head-room, `res_offset` negative, zero, positive or beyond either precision:
+whenever the routine returns (the model's loop fuel was never exhausted in the correspondence), the output
+has `rs` limbs with `|d| ≤ 2^rb − 1` (not always balanced, see below), and its torus value is
+`a·2^off` *within one unit of the last limb of the result* (`TorusNear`: `|out/2^(rb·rs) − a·2^off/2^(ab·as)| ≤ 2^-(rb·rs)`
+on R/Z — this is the rounding rule of the code: every discarded tail is rounded half-up-ish through the
+balanced digit / rounding right shift, never accumulating more than one unit); the value is *exact* when the
+shifted input needs no more bits than the result has (`ab·a_size − off ≤ rb·rs`, the same condition as for
+equal radices). -/
+theorem normalize_cross_value {bits ab rb rs : Nat} {H : Int} {a : List Int}
+    (c : CrossCtx bits ab rb rs 0 H a) (off : Int) {out : List Int}
+    (h : normalizeCrossCoef bits rb rs off ab a = some out) :
+    out.length = rs ∧ (∀ d ∈ out, |d| ≤ 2 ^ rb - 1) ∧
+    TorusNear (valI rb out) (rb * rs) (valI ab a * 2 ^ off.toNat) (ab * a.length + (-off).toNat) ∧
+    (((ab * a.length : Nat) : Int) - off ≤ ((rb * rs : Nat) : Int) →
+      TorusEq (valI rb out) (rb * rs) (valI ab a * 2 ^ off.toNat) (ab * a.length + (-off).toNat)) :=
+  normalizeCrossCoef_value c off h
+
+/-- corollary, the last-limb bound spelled out: there are integers `k` (the integer part, invisible on the
+torus) and `e` with `out·2^py = a·2^off·2^(rb·rs) + e + k·2^(rb·rs+py)` and `|e| ≤ 2^py`, `py = ab·as + (−off)⁺`,
+i.e. the error is at most one unit `2^-(rb·rs)` of the last result limb. -/
+theorem normalize_cross_last_limb {bits ab rb rs : Nat} {H : Int} {a : List Int}
+    (c : CrossCtx bits ab rb rs 0 H a) (off : Int) {out : List Int}
+    (h : normalizeCrossCoef bits rb rs off ab a = some out) :
+    ∃ k e : Int, valI rb out * 2 ^ (ab * a.length + (-off).toNat)
+        = valI ab a * 2 ^ off.toNat * 2 ^ (rb * rs) + e + k * 2 ^ (rb * rs + (ab * a.length + (-off).toNat)) ∧
+      |e| ≤ 2 ^ (ab * a.length + (-off).toNat) :=
+  (normalize_cross_value c off h).2.2.1
+
+theorem crossCtx_example_offsets : CrossCtx 64 15 25 2 0 (2 ^ 61) [2 ^ 61 - 12345, -(2 ^ 61) + 98765, 12345] :=
+  ⟨Or.inl rfl, by norm_num, by norm_num, by norm_num, by norm_num, by norm_num, by norm_num,
+    by intro x hx; simp at hx; rcases hx with rfl | rfl | rfl <;> norm_num⟩
+
+/-- non-vacuity, one example per offset class (radix 2^15 → 2^25, 3 limbs → 2 limbs, limbs at the bound):
+negative with overlap (N2), negative into the gap below the result (N1, former gap defect region),
+positive, and positive beyond the input precision (all shifted out). -/
+example : ∃ out, normalizeCrossCoef 64 25 2 (-22) 15 [2 ^ 61 - 12345, -(2 ^ 61) + 98765, 12345] = some out ∧
+    TorusNear (valI 25 out) (25 * 2) (valI 15 [2 ^ 61 - 12345, -(2 ^ 61) + 98765, 12345] * 2 ^ (-22 : Int).toNat)
+      (15 * 3 + (-(-22) : Int).toNat) := by
+  obtain ⟨out, h⟩ : ∃ out, normalizeCrossCoef 64 25 2 (-22) 15 [2 ^ 61 - 12345, -(2 ^ 61) + 98765, 12345] = some out :=
+    Option.isSome_iff_exists.mp (by decide +kernel)
+  exact ⟨out, h, (normalize_cross_value crossCtx_example_offsets (-22) h).2.2.1⟩
+
+example : ∃ out, normalizeCrossCoef 64 25 2 (-70) 15 [2 ^ 61 - 12345, -(2 ^ 61) + 98765, 12345] = some out ∧
+    TorusNear (valI 25 out) (25 * 2) (valI 15 [2 ^ 61 - 12345, -(2 ^ 61) + 98765, 12345] * 2 ^ (-70 : Int).toNat)
+      (15 * 3 + (-(-70) : Int).toNat) := by
+  obtain ⟨out, h⟩ : ∃ out, normalizeCrossCoef 64 25 2 (-70) 15 [2 ^ 61 - 12345, -(2 ^ 61) + 98765, 12345] = some out :=
+    Option.isSome_iff_exists.mp (by decide +kernel)
+  exact ⟨out, h, (normalize_cross_value crossCtx_example_offsets (-70) h).2.2.1⟩
+
+example : ∃ out, normalizeCrossCoef 64 25 2 19 15 [2 ^ 61 - 12345, -(2 ^ 61) + 98765, 12345] = some out ∧
+    TorusNear (valI 25 out) (25 * 2) (valI 15 [2 ^ 61 - 12345, -(2 ^ 61) + 98765, 12345] * 2 ^ (19 : Int).toNat)
+      (15 * 3 + (-19 : Int).toNat) := by
+  obtain ⟨out, h⟩ : ∃ out, normalizeCrossCoef 64 25 2 19 15 [2 ^ 61 - 12345, -(2 ^ 61) + 98765, 12345] = some out :=
+    Option.isSome_iff_exists.mp (by decide +kernel)
+  exact ⟨out, h, (normalize_cross_value crossCtx_example_offsets 19 h).2.2.1⟩
+
+example : ∃ out, normalizeCrossCoef 64 25 2 1000 15 [2 ^ 61 - 12345, -(2 ^ 61) + 98765, 12345] = some out ∧
+    TorusEq (valI 25 out) (25 * 2) (valI 15 [2 ^ 61 - 12345, -(2 ^ 61) + 98765, 12345] * 2 ^ (1000 : Int).toNat)
+      (15 * 3 + (-1000 : Int).toNat) := by
+  obtain ⟨out, h⟩ : ∃ out, normalizeCrossCoef 64 25 2 1000 15 [2 ^ 61 - 12345, -(2 ^ 61) + 98765, 12345] = some out :=
+    Option.isSome_iff_exists.mp (by decide +kernel)
+  exact ⟨out, h, (normalize_cross_value crossCtx_example_offsets 1000 h).2.2.2 (by decide)⟩
+
+/-- the digits the four examples compute, and two roundings in the gap region (`-2^-24` resp. `-2^-25` at 50 bits;
+`-1/32` into one radix-2^4 limb rounds to `-1/16`, within one unit) -/
+example : ([-22, -70, 19, 1000] : List Int).map
+      (fun o => normalizeCrossCoef 64 25 2 o 15 [2 ^ 61 - 12345, -(2 ^ 61) + 98765, 12345])
+      = [some [-3, -442253], some [2, -2048], some [7559197, -16777216], some [0, 0]] ∧
+    normalizeCrossCoef 64 25 2 (-70) 15 [-(2 ^ 61), 0, 0] = some [-2, 0] ∧
+    normalizeCrossCoef 64 25 2 (-71) 15 [-(2 ^ 61), 0, 0] = some [-1, 0] ∧
+    normalizeCrossCoef 64 4 1 (-4) 3 [-4] = some [-1] := by decide +kernel
+
+/-- bound of the digits (`|d| ≤ 2^rb − 1`) turned into the `i64` no-wrap condition of the fused forms -/
+theorem no_wrap_of_cross {rb : Nat} (hb : rb ≤ 62) (res t : List Int)
+    (hres : ∀ r ∈ res, |r| ≤ 2 ^ 62) (ht : ∀ d ∈ t, |d| ≤ 2 ^ rb - 1) :
+    (∀ p ∈ List.zip res t, |p.1 + p.2| < 2 ^ 63) ∧ (∀ p ∈ List.zip res t, |p.1 - p.2| < 2 ^ 63) := by
+  have h1 : (2 : Int) ^ rb ≤ 2 ^ 62 := two_pow_le hb
+  constructor <;> intro p hp
+  · have hm := List.of_mem_zip hp
+    have := hres _ hm.1; have := ht _ hm.2; have := abs_add_le p.1 p.2; linarith
+  · have hm := List.of_mem_zip hp
+    have := hres _ hm.1; have := ht _ hm.2; have := abs_sub p.1 p.2; linarith
+
+/-- **`vec_znx_normalize` / FFT64 `vec_znx_big_normalize`, any radix pair (equal or different), every offset**
+(the dispatch the Rust does).  This is the value property C01 (`NormSpec`) and C02
+(`normalize_phase_modulo_norm`) rely on. -/
+theorem normalize_value {ab rb rs : Nat} {H : Int} {a : List Int}
+    (c : CrossCtx 64 ab rb rs 0 H a) (off : Int) {out : List Int} (h : normalizeCoef rb rs off ab a = some out) :
+    out.length = rs ∧ (∀ d ∈ out, |d| ≤ 2 ^ rb - 1) ∧
+    TorusNear (valI rb out) (rb * rs) (valI ab a * 2 ^ off.toNat) (ab * a.length + (-off).toNat) ∧
+    (((ab * a.length : Nat) : Int) - off ≤ ((rb * rs : Nat) : Int) →
+      TorusEq (valI rb out) (rb * rs) (valI ab a * 2 ^ off.toNat) (ab * a.length + (-off).toNat)) :=
+  normalizeCoef_value c off h
+
+/-- **NTT120 `vec_znx_big_normalize`, any radix pair, every offset** (`i128` accumulator limbs up to
+`2^126 − 8`) -/
+theorem big_normalize128_value {ab rb rs : Nat} {H : Int} {a : List Int}
+    (c : CrossCtx 128 ab rb rs 0 H a) (off : Int) {out : List Int} (h : bigNormalizeCoef128 rb rs off ab a = some out) :
+    out.length = rs ∧ (∀ d ∈ out, |d| ≤ 2 ^ rb - 1) ∧
+    TorusNear (valI rb out) (rb * rs) (valI ab a * 2 ^ off.toNat) (ab * a.length + (-off).toNat) ∧
+    (((ab * a.length : Nat) : Int) - off ≤ ((rb * rs : Nat) : Int) →
+      TorusEq (valI rb out) (rb * rs) (valI ab a * 2 ^ off.toNat) (ab * a.length + (-off).toNat)) :=
+  bigNormalizeCoef128_value c off h
+
+/-- i128 context: limbs up to `2^120`, radix 2^20 → 2^12 -/
+theorem crossCtx_example128 : CrossCtx 128 20 12 3 0 (2 ^ 120) [2 ^ 120 - 987654321, -5, 77] :=
+  ⟨Or.inr rfl, by norm_num, by norm_num, by norm_num, by norm_num, by norm_num, by norm_num,
+    by intro x hx; simp at hx; rcases hx with rfl | rfl | rfl <;> norm_num⟩
+
+example : ∃ out, bigNormalizeCoef128 12 3 (-33) 20 [2 ^ 120 - 987654321, -5, 77] = some out ∧
+    TorusNear (valI 12 out) (12 * 3) (valI 20 [2 ^ 120 - 987654321, -5, 77] * 2 ^ (-33 : Int).toNat) (20 * 3 + (-(-33) : Int).toNat) := by
+  obtain ⟨out, h⟩ : ∃ out, bigNormalizeCoef128 12 3 (-33) 20 [2 ^ 120 - 987654321, -5, 77] = some out :=
+    Option.isSome_iff_exists.mp (by decide +kernel)
+  exact ⟨out, h, (big_normalize128_value crossCtx_example128 (-33) h).2.2.1⟩
+
+/-! ### fused add / sub, different radices (and the general FFT64 fall-back) -/
+
+/-- **FFT64 `vec_znx_big_normalize_add_assign`, any radix pair, every offset** (HAL fall-back: normalise
+into a temporary `t`, then `res[j] = res[j].wrapping_add(t[j])`): `res' − res` represents `a·2^off` within
+one unit of the last limb, for limbs of `res` up to `2^62`. -/
+theorem big_normalize_add_value64_cross {ab rb : Nat} {H : Int} {a res : List Int}
+    (c : CrossCtx 64 ab rb res.length 0 H a) (off : Int) (hres : ∀ r ∈ res, |r| ≤ 2 ^ 62) {t : List Int}
+    (h : normalizeCoef rb res.length off ab a = some t) :
+    TorusNear (valI rb (List.zipWith (fun r x => w64 (r + x)) res t) - valI rb res) (rb * res.length)
+      (valI ab a * 2 ^ off.toNat) (ab * a.length + (-off).toNat) := by
+  have hv := normalize_value c off h
+  have hnw := no_wrap_of_cross c.hrb res t hres hv.2.1
+  exact fused_add_fallback_value rb res t hv.1.symm hnw.1 (by rw [hv.1]; exact hv.2.2.1)
+
+/-- **FFT64 `vec_znx_big_normalize_sub_assign`, any radix pair, every offset**: `res' − res` represents `−a·2^off` -/
+theorem big_normalize_sub_value64_cross {ab rb : Nat} {H : Int} {a res : List Int}
+    (c : CrossCtx 64 ab rb res.length 0 H a) (off : Int) (hres : ∀ r ∈ res, |r| ≤ 2 ^ 62) {t : List Int}
+    (h : normalizeCoef rb res.length off ab a = some t) :
+    TorusNear (valI rb (List.zipWith (fun r x => w64 (r - x)) res t) - valI rb res) (rb * res.length)
+      (-(valI ab a * 2 ^ off.toNat)) (ab * a.length + (-off).toNat) := by
+  have hv := normalize_value c off h
+  have hnw := no_wrap_of_cross c.hrb res t hres hv.2.1
+  exact fused_sub_fallback_value rb res t hv.1.symm hnw.2 (by rw [hv.1]; exact hv.2.2.1)
+
+/-- **NTT120 `vec_znx_big_normalize_add_assign`, different radices, every offset** (after repair
+docs/fixes/03 the `AddOp` and `SubOp` forms both go through the temporary) -/
+theorem big_normalize_add_value128_cross {ab rb : Nat} {H : Int} {a res : List Int}
+    (c : CrossCtx 128 ab rb res.length 0 H a) (hne : rb ≠ ab) (off : Int) (hres : ∀ r ∈ res, |r| ≤ 2 ^ 62)
+    {res' : List Int} (h : bigNormalizeAssignCoef128 .add rb off ab a res = some res') :
+    TorusNear (valI rb res' - valI rb res) (rb * res.length)
+      (valI ab a * 2 ^ off.toNat) (ab * a.length + (-off).toNat) := by
+  unfold bigNormalizeAssignCoef128 at h
+  rw [if_neg hne, Option.map_eq_some_iff] at h
+  obtain ⟨t, ht, rfl⟩ := h
+  have hv := normalize_cross_value c off ht
+  have hnw := no_wrap_of_cross c.hrb res t hres hv.2.1
+  exact fused_add_fallback_value rb res t hv.1.symm hnw.1 (by rw [hv.1]; exact hv.2.2.1)
+
+/-- **NTT120 `vec_znx_big_normalize_sub_assign`, different radices, every offset** -/
+theorem big_normalize_sub_value128_cross {ab rb : Nat} {H : Int} {a res : List Int}
+    (c : CrossCtx 128 ab rb res.length 0 H a) (hne : rb ≠ ab) (off : Int) (hres : ∀ r ∈ res, |r| ≤ 2 ^ 62)
+    {res' : List Int} (h : bigNormalizeAssignCoef128 .sub rb off ab a res = some res') :
+    TorusNear (valI rb res' - valI rb res) (rb * res.length)
+      (-(valI ab a * 2 ^ off.toNat)) (ab * a.length + (-off).toNat) := by
+  unfold bigNormalizeAssignCoef128 at h
+  rw [if_neg hne, Option.map_eq_some_iff] at h
+  obtain ⟨t, ht, rfl⟩ := h
+  have hv := normalize_cross_value c off ht
+  have hnw := no_wrap_of_cross c.hrb res t hres hv.2.1
+  exact fused_sub_fallback_value rb res t hv.1.symm hnw.2 (by rw [hv.1]; exact hv.2.2.1)
+
+example : ∃ res', bigNormalizeAssignCoef128 .sub 12 (-33) 20 [2 ^ 120 - 987654321, -5, 77] [2 ^ 62, -(2 ^ 62), 9] = some res' ∧
+    TorusNear (valI 12 res' - valI 12 [2 ^ 62, -(2 ^ 62), 9]) (12 * 3)
+      (-(valI 20 [2 ^ 120 - 987654321, -5, 77] * 2 ^ (-33 : Int).toNat)) (20 * 3 + (-(-33) : Int).toNat) := by
+  obtain ⟨r, h⟩ : ∃ r, bigNormalizeAssignCoef128 .sub 12 (-33) 20 [2 ^ 120 - 987654321, -5, 77] [2 ^ 62, -(2 ^ 62), 9] = some r :=
+    Option.isSome_iff_exists.mp (by decide +kernel)
+  exact ⟨r, h, big_normalize_sub_value128_cross (res := [2 ^ 62, -(2 ^ 62), 9]) crossCtx_example128 (by decide) (-33)
+    (by intro x hx; simp at hx; rcases hx with rfl | rfl | rfl <;> norm_num) h⟩
+
+/-! ### termination of the cross-radix loop: the routines always return -/
+
+/-- **the cross-radix routine always returns**: the model's `'inner` loop fuel (`ab + 2` passes) is never
+exhausted, for all radices `≥ 1`, sizes, offsets and inputs (no head-room needed: the loop counters are
+data independent).  So the hypotheses `… = some out` above are always satisfiable, and the driver's
+`err:fuel` outcome is unreachable. -/
+theorem normalize_cross_terminates (bits rb rs : Nat) (off : Int) (ab : Nat) (a : List Int) (hab1 : 1 ≤ ab) (hrb1 : 1 ≤ rb) :
+    ∃ out, normalizeCrossCoef bits rb rs off ab a = some out :=
+  normalizeCrossCoef_exists bits rb rs off ab a hab1 hrb1
+
+example : ∃ out, normalizeCrossCoef 64 62 3 (-500) 1 [1, -1, 1, 1] = some out :=
+  normalize_cross_terminates 64 62 3 (-500) 1 _ (by norm_num) (by norm_num)
+
+/-- **total form, `vec_znx_normalize` / FFT64 `vec_znx_big_normalize`**: any radix pair, every offset — the call
+returns `rs` limbs with `|d| ≤ 2^rb − 1` representing `a·2^off` within one unit of the last limb. -/
+theorem normalize_value_total {ab rb rs : Nat} {H : Int} {a : List Int} (c : CrossCtx 64 ab rb rs 0 H a) (off : Int) :
+    ∃ out, normalizeCoef rb rs off ab a = some out ∧ out.length = rs ∧ (∀ d ∈ out, |d| ≤ 2 ^ rb - 1) ∧
+      TorusNear (valI rb out) (rb * rs) (valI ab a * 2 ^ off.toNat) (ab * a.length + (-off).toNat) := by
+  obtain ⟨out, h⟩ := normalizeCoef_exists rb rs off ab a c.hlsh c.hrb1
+  obtain ⟨h1, h2, h3, _⟩ := normalize_value c off h
+  exact ⟨out, h, h1, h2, h3⟩
+
+/-- **total form, NTT120 `vec_znx_big_normalize`** -/
+theorem big_normalize128_value_total {ab rb rs : Nat} {H : Int} {a : List Int} (c : CrossCtx 128 ab rb rs 0 H a) (off : Int) :
+    ∃ out, bigNormalizeCoef128 rb rs off ab a = some out ∧ out.length = rs ∧ (∀ d ∈ out, |d| ≤ 2 ^ rb - 1) ∧
+      TorusNear (valI rb out) (rb * rs) (valI ab a * 2 ^ off.toNat) (ab * a.length + (-off).toNat) := by
+  obtain ⟨out, h⟩ := bigNormalizeCoef128_exists rb rs off ab a c.hlsh c.hrb1
+  obtain ⟨h1, h2, h3, _⟩ := big_normalize128_value c off h
+  exact ⟨out, h, h1, h2, h3⟩
+
+/-- **total form, NTT120 fused `vec_znx_big_normalize_{add,sub}_assign`, different radices**: the call returns,
+and `res' − res` represents `±a·2^off` within one unit of the last limb -/
+theorem big_normalize_fused128_cross_total {ab rb : Nat} {H : Int} {a res : List Int}
+    (c : CrossCtx 128 ab rb res.length 0 H a) (hne : rb ≠ ab) (off : Int) (hres : ∀ r ∈ res, |r| ≤ 2 ^ 62) :
+    (∃ res', bigNormalizeAssignCoef128 .add rb off ab a res = some res' ∧
+      TorusNear (valI rb res' - valI rb res) (rb * res.length) (valI ab a * 2 ^ off.toNat) (ab * a.length + (-off).toNat)) ∧
+    (∃ res', bigNormalizeAssignCoef128 .sub rb off ab a res = some res' ∧
+      TorusNear (valI rb res' - valI rb res) (rb * res.length) (-(valI ab a * 2 ^ off.toNat)) (ab * a.length + (-off).toNat)) := by
+  obtain ⟨t, ht⟩ := normalizeCrossCoef_exists 128 rb res.length off ab a c.hlsh c.hrb1
+  have hadd : bigNormalizeAssignCoef128 .add rb off ab a res = some (List.zipWith (fun r x => AccOp.add.apply r x) res t) := by
+    unfold bigNormalizeAssignCoef128; rw [if_neg hne, ht]; rfl
+  have hsub : bigNormalizeAssignCoef128 .sub rb off ab a res = some (List.zipWith (fun r x => AccOp.sub.apply r x) res t) := by
+    unfold bigNormalizeAssignCoef128; rw [if_neg hne, ht]; rfl
+  exact ⟨⟨_, hadd, big_normalize_add_value128_cross c hne off hres hadd⟩,
+    ⟨_, hsub, big_normalize_sub_value128_cross c hne off hres hsub⟩⟩
+
 /-- when the offset shifts the whole input out (`res_start = 0` in the Rust) the output is exactly zero,
-for every offset -/
-theorem normalize_cross_value_partial (rb rs ab : Nat) (off : Int) (a : List Int)
+for every offset (no head-room needed) -/
+theorem normalize_cross_shifted_out (rb rs ab : Nat) (off : Int) (a : List Int)
     (h : clampNat ((a.length * ab : Nat) - (splitOffset ab off).2 * ab) (rs * rb) = 0) :
     normalizeCrossCoef 64 rb rs off ab a = some (List.replicate rs 0) := by
   unfold normalizeCrossCoef
@@ -679,6 +900,6 @@ theorem normalize_cross_value_partial (rb rs ab : Nat) (off : Int) (a : List Int
   simp
 
 example : normalizeCrossCoef 64 4 2 9 3 [1, 2, 3] = some [0, 0] :=
-  normalize_cross_value_partial 4 2 3 9 [1, 2, 3] (by decide)
+  normalize_cross_shifted_out 4 2 3 9 [1, 2, 3] (by decide)
 
 end C08
